@@ -51,6 +51,7 @@ ANCHORS = [
     ("src/easynetwork/lowlevel/api_async/backend/_asyncio/stream/socket.py", "StreamReaderBufferedProtocol._maybe_pause_transport"),
     ("src/easynetwork/lowlevel/api_async/backend/_asyncio/stream/socket.py", "StreamReaderBufferedProtocol._maybe_resume_transport"),
     ("src/easynetwork/lowlevel/api_async/backend/_asyncio/stream/socket.py", "StreamReaderBufferedProtocol._compute_read_buffer_limits"),
+    ("src/easynetwork/lowlevel/api_async/backend/_asyncio/stream/socket.py", "AsyncioTransportStreamSocketAdapter.is_closing"),
     ("src/easynetwork/lowlevel/api_async/backend/_asyncio/stream/socket.py", "AsyncioTransportStreamSocketAdapter.recv"),
     ("src/easynetwork/lowlevel/api_async/backend/_asyncio/stream/socket.py", "AsyncioTransportStreamSocketAdapter.recv_into"),
     ("src/easynetwork/clients/_iter.py", "ClientRecvIterator.__next__"),
@@ -146,12 +147,32 @@ def raise_kind(k):
     raise OSError(_errno.EIO, "scripted I/O error")
 
 
+class ScriptSocket(FakeSocket):
+    """an open socket whose SO_ERROR is scripted: when the next thing the transport would see is the peer's RESET, the
+    kernel already knows; reading SO_ERROR returns ECONNRESET and clears it (the connection then reads as ended)"""
+
+    def __init__(self, owner):
+        self.owner = owner
+
+    def fileno(self):
+        return 99
+
+    def getsockopt(self, level, opt, *a):
+        if level == _socket.SOL_SOCKET and opt == _socket.SO_ERROR:
+            script = self.owner.script
+            if script and script[0][0] == 3 and script[0][1] == 0:
+                script.popleft()
+                return _errno.ECONNRESET
+            return 0
+        raise OSError(_errno.ENOPROTOOPT, "fake")
+
+
 class _Script:
     def _init_script(self, oracle):
         self.script = deque([list(x) for x in oracle])
         self.taken = 0
         self._closed = False
-        self._sock = FakeSocket()
+        self._sock = ScriptSocket(self)
 
     def _take(self, buffer):
         """head item is data: copy what fits; returns n"""
@@ -718,6 +739,17 @@ class KernelTransport:
 
     abort = close
 
+    def fatal(self, exc):
+        """asyncio's _fatal_error()/_force_close(): the transport reports closing at once, the protocol is told next turn"""
+        if not self.closed:
+            self.closed = True
+            self.kbuf.clear()
+            self._loop.call_soon(self.proto.connection_lost, exc)
+
+    def reset(self):
+        """the peer's RST: what is still in the kernel is discarded, the loop force-closes the transport"""
+        self.fatal(ConnectionResetError(_errno.ECONNRESET, "scripted reset"))
+
     def set_write_buffer_limits(self, high=None, low=None):
         pass
 
@@ -764,6 +796,11 @@ class KernelTransport:
         if self.kbuf:
             buf = self.proto.get_buffer(-1)
             with memoryview(buf) as mv:
+                if not mv.nbytes:
+                    # what _SelectorSocketTransport._read_ready__get_buffer does: a fatal error, the connection is dropped
+                    del buf
+                    self.fatal(RuntimeError("get_buffer() returned an empty buffer"))
+                    return
                 n = min(mv.nbytes, len(self.kbuf))
                 mv[:n] = self.kbuf[:n]
             del buf
@@ -847,6 +884,8 @@ async def _run_e2e(inp):
                 elif act[0] == 2:
                     ktr.kbuf += act[1]
                     loop.call_soon(ktr.read_ready)
+                elif act[0] == 4:
+                    loop.call_soon(ktr.reset)
                 else:
                     ktr.peer_closed = True
                     loop.call_soon(ktr.read_ready)
@@ -1019,6 +1058,20 @@ def _single_cases(tier, rng, escalate):
                                     "silence" if any(gaps) else "no-silence", "data-after-eof" if tail else "plain-eof"]
                             yield dict(input=mk(fr, buffered, oracle, hist, mode, bufsize, api), tags=tags,
                                        nontrivial=bool(inside or any(gaps) or len(frames) >= 2))
+    # the peer RESETs with complete packets still buffered in the client's consumer (several packets in one segment)
+    for fr in FRAMINGS[:3]:
+        for mode in (0, 1):
+            for api in (0, 1):
+                for buffered in (False, True):
+                    for nbuf in (2, 3):
+                        chunk = b"".join((fr["valid"] * 2)[: nbuf])
+                        for pre in ([], [[0, fr["valid"][0], 0]]):
+                            oracle = pre + [[0, chunk, 0], [3, 0], [1]]
+                            hist = [[0, []]] * (nbuf + len(pre) + 3)
+                            yield dict(input=mk(fr, buffered, oracle, hist, mode, 64, api),
+                                       tags=[fr["name"], "peer-reset-with-buffered-packets", "client" if api else "endpoint",
+                                             "async" if mode else "blocking", "buffered" if buffered else "copying"],
+                                       nontrivial=True)
     # transport errors (client conversion)
     for fr in FRAMINGS[:3]:
         for k in (0, 1, 2):
@@ -1125,6 +1178,25 @@ def _e2e_cases(tier, rng, escalate):
 BIG_LF = dict(name="lf-big", kinds=(0, 1), cfg=[b"\n", 200000, 0], impl=[b"autosep-ascii"], dec=1)
 
 
+def _reset_e2e_cases(tier, rng, escalate):
+    """async TCP client over the real transport: several packets in one segment, one taken, then the peer RESETs (the loop
+    force-closes the transport): the packets already in the client's consumer must still be delivered, then the abort"""
+    R, C = [0], [1]
+    for fr in FRAMINGS[:3]:
+        for buffered in (False, True):
+            for nbuf in (2, 3, 4):
+                chunk = b"".join((fr["valid"] * 2)[:nbuf])
+                if len(chunk) > 10:
+                    continue        # must fit the buffered consumer's allocation: what stays in the protocol is dropped by a reset
+                for taken in range(0, nbuf):
+                    turns = [[R], [[2, chunk]]] + [[R]] * taken + [rng.choice([[[4]], [[4], R], [R, [4]] if taken < nbuf - 1 else [[4]]])]
+                    oracle = [[0, chunk, 0], [3, 0], [1]]
+                    case = mk(fr, buffered, oracle, [], 1, 64, 1)
+                    yield dict(input=[300, case, turns],
+                               tags=["real-asyncio-transport", fr["name"], "peer-reset-with-buffered-packets",
+                                     "buffered" if buffered else "copying", "client"], nontrivial=True)
+
+
 def _flow_cases(tier, rng, escalate):
     """read flow control of the real protocol: the peer sends a backlog above the high-water mark while no receive is
     pending (pause_reading), then receives with max_recv_size below / between / above the water marks, more data, the close.
@@ -1172,6 +1244,7 @@ def cases(tier, rng, escalate):
     yield from _single_cases(tier, rng, escalate)
     yield from _threaded_cases(tier, rng, escalate)
     yield from _e2e_cases(tier, rng, escalate)
+    yield from _reset_e2e_cases(tier, rng, escalate)
     yield from _flow_cases(tier, rng, escalate)
 
 
@@ -1231,7 +1304,7 @@ def _oracle_e2e(inp):
                     f"{got[-1:] } instead of the {len(exp) - 1} packets sent then end-of-stream")
         return None
     kind, cfg, _dec, orc, _calls, _mode, bufsize, api, impl = case[:9]
-    stream = _stream_of(orc)
+    stream = _stream_of([it for it in orc if it[0] != 3])
     expected, _left = sc.spec_events_py(kind, cfg, impl, stream)
     exp = [[0, e[1]] if e[0] == 0 else [1, 1] for e in expected] + [[2]]
     got = run_impl(inp)
@@ -1268,6 +1341,16 @@ def oracle(inp):
             aborted_at = (taken, left)
             if any(it[0] == 3 and it[1] == 0 for it in orc) and api == 1:
                 aborted_at = None   # a converted ConnectionError is not an end-of-stream latch
+                before = b""
+                for it in orc:
+                    if it[0] == 3 and it[1] == 0:
+                        break
+                    if it[0] == 0:
+                        before += it[1]
+                nbefore = len(sc.spec_events_py(kind, cfg, impl, before)[0])
+                if len(delivered) < nbefore and not _limit_hit(kind, cfg, stream):
+                    return (f"connection error reported after {len(delivered)} results but {nbefore} complete frames had "
+                            f"been received before the peer's reset")
                 continue
             if len(delivered) < len(expected) and not _limit_hit(kind, cfg, stream):
                 return (f"end-of-stream reported after {len(delivered)} results but {len(expected)} complete frames "
@@ -1298,6 +1381,8 @@ def shrink(inp):
     if inp[0] == 300:
         _tag, case, turns = inp[:3]
         rest = list(inp[3:])
+        if any(a[0] == 4 for t in turns for a in t):
+            return      # a reset scenario is only meaningful as generated (the endpoint has pulled the data before the reset)
         for i in range(len(turns)):
             if not any(a[0] == 2 for a in turns[i]):
                 yield [300, case, turns[:i] + turns[i + 1:]] + rest
